@@ -233,6 +233,7 @@ func (b *Broker) Close() error {
 	}
 
 	close(b.responses)
+	verifPoint("broker.close.begin", b)
 	<-b.done
 
 	err := b.conn.Close()
@@ -775,6 +776,7 @@ func (b *Broker) send(rb protocolBody, promiseResponse bool, responseHeaderVersi
 		return nil, err
 	}
 	b.correlationID++
+	verifPoint("broker.send.wrote", b, req.correlationID)
 
 	if !promiseResponse {
 		// Record request latency without the response
@@ -784,6 +786,7 @@ func (b *Broker) send(rb protocolBody, promiseResponse bool, responseHeaderVersi
 
 	promise := responsePromise{requestTime, req.correlationID, responseHeaderVersion, make(chan []byte), make(chan error)}
 	b.responses <- promise
+	verifPoint("broker.send.enqueued", b, req.correlationID)
 
 	return &promise, nil
 }
@@ -876,11 +879,13 @@ func (b *Broker) responseReceiver() {
 	var dead error
 
 	for response := range b.responses {
+		verifPoint("broker.recv.dequeued", b, response.correlationID)
 		if dead != nil {
 			// This was previously incremented in send() and
 			// we are not calling updateIncomingCommunicationMetrics()
 			b.addRequestInFlightMetrics(-1)
 			response.errors <- dead
+			verifPoint("broker.recv.failed", b, response.correlationID, dead)
 			continue
 		}
 
@@ -893,6 +898,7 @@ func (b *Broker) responseReceiver() {
 			b.updateIncomingCommunicationMetrics(bytesReadHeader, requestLatency)
 			dead = err
 			response.errors <- err
+			verifPoint("broker.recv.failed", b, response.correlationID, err)
 			continue
 		}
 
@@ -902,6 +908,7 @@ func (b *Broker) responseReceiver() {
 			b.updateIncomingCommunicationMetrics(bytesReadHeader, requestLatency)
 			dead = err
 			response.errors <- err
+			verifPoint("broker.recv.failed", b, response.correlationID, err)
 			continue
 		}
 		if decodedHeader.correlationID != response.correlationID {
@@ -910,6 +917,7 @@ func (b *Broker) responseReceiver() {
 			// TODO if decoded ID > cur ID, save it so when cur ID catches up we have a response
 			dead = PacketDecodingError{fmt.Sprintf("correlation ID didn't match, wanted %d, got %d", response.correlationID, decodedHeader.correlationID)}
 			response.errors <- dead
+			verifPoint("broker.recv.failed", b, response.correlationID, dead)
 			continue
 		}
 
@@ -919,10 +927,12 @@ func (b *Broker) responseReceiver() {
 		if err != nil {
 			dead = err
 			response.errors <- err
+			verifPoint("broker.recv.failed", b, response.correlationID, err)
 			continue
 		}
 
 		response.packets <- buf
+		verifPoint("broker.recv.delivered", b, response.correlationID)
 	}
 	close(b.done)
 }
